@@ -171,6 +171,20 @@ def run(ctx):
     vlib.log("spec MaskPath_quick.cfg (a path element addresses object members and array elements alike): %d states; mutant "
              "(all-digit elements address arrays only) rejected with a %d-state counterexample" % (res3.distinct, len(mut3.trace)))
     model["MaskPath"] = {"mechanism_states": res3.distinct, "mutant_rejected": True, "mutant_trace_len": len(mut3.trace)}
+    # sequences of events through one instance; rule value lists of different lengths
+    for mod, okcfg, mutcfg, inv, what in (
+            ("MaskSeq", "MaskSeq_quick.cfg", "MaskSeq_mutant.cfg", "EventAlone",
+             "no state across events / per-mask hit counter survives to the next event"),
+            ("MaskRuleMatch", "MaskRuleMatch_quick.cfg", "MaskRuleMatch_mutant.cfg", "SomeValueMatches",
+             "every value of a rule is tried / only the shortest length can match when case-insensitive")):
+        ov = {"MaxData": "4", "MaxVal": "3", "MaxVals": "2"} if (thorough and mod == "MaskRuleMatch") else None
+        r = ctx.tlc_expect_ok(mod, okcfg, timeout=900, deadlock=False, workers=8, overrides=ov)
+        mu = ctx.tlc(mod, mutcfg, timeout=300, deadlock=False, workers=4, name="%s/mutant (expected violation)" % mod)
+        if mu.ok or mu.violated != inv:
+            raise vlib.Infra("mutant of %s was not rejected by TLC (violated=%s)" % (mod, mu.violated))
+        vlib.log("spec %s (%s): mechanism %d states ok; mutant rejected (%s, %d-state counterexample)"
+                 % (mod, what, r.distinct, inv, len(mu.trace)))
+        model[mod] = {"mechanism_states": r.distinct, "mutant_rejected": True, "mutant_trace_len": len(mu.trace)}
     model["MaskRules"] = {"mechanism_states": res.distinct, "mutant_rejected": True, "mutant_trace_len": len(mut.trace)}
     ctx.extra["abstract_model"] = model
 
@@ -217,6 +231,11 @@ def run(ctx):
              "lists): %d runs" % sm.get("numeric_key_runs", 0))
     if not ctx.replay and sm.get("numeric_key_runs", 0) < 100:
         raise vlib.Infra("numeric-keys family did not run: %s" % sm)
+    vlib.log("sequence family (2-3 masks x applied_field / metric_name set or not, every 2- and 3-event sequence through ONE "
+             "instance): %d runs; rule-values family (prefix / suffix / contains x case x invert x value lists of different "
+             "lengths): %d runs" % (sm.get("sequence_runs", 0), sm.get("rule_value_runs", 0)))
+    if not ctx.replay and (sm.get("sequence_runs", 0) < 5000 or sm.get("rule_value_runs", 0) < 100):
+        raise vlib.Infra("sequence / rule-values family did not run: %s" % sm)
     if not files or sm["unique_records"] == 0:
         raise vlib.Infra("driver produced no records")
     if not ctx.replay and (sm["leaf"] < 20000 or sm["events"] < 1000 or sm["matched"] < 10000):
@@ -290,7 +309,8 @@ def run(ctx):
     # ---- 5. evidence
     ctx.evaluations = agg["records"]
     ctx.traces_validated = (sm["leaf"] + sm["events"] + sm.get("stress_runs", 0) + sm.get("doif_order_runs", 0)
-                            + sm.get("many_masks_runs", 0) + sm.get("numeric_key_runs", 0))
+                            + sm.get("many_masks_runs", 0) + sm.get("numeric_key_runs", 0) + sm.get("sequence_runs", 0)
+                            + sm.get("rule_value_runs", 0))
     ctx.nontrivial = sm["matched"] + sm["events"]
     ctx.exhaustive = thorough
     ctx.rule = ("record = one execution of the real Plugin.Do (started by the real Start): leaf records = curated regexp "
@@ -304,7 +324,10 @@ def run(ctx):
                 "list, own ignore list, none + global lists) before / behind K in {0,1,62,63,64,65,130} masks that match nothing, "
                 "judged with the silent masks projected away; numeric-keys family = all-digit path elements in global ignore / "
                 "process lists and mask-specific lists x the addressed node being an array element, an object member with "
-                "that key, or absent; anchors families = expressions with leading ^ / \\A, trailing $, top-level alternation of "
+                "that key, or absent; sequence family = every 2- and 3-event sequence (mask A only / B only / both / none) through "
+                "ONE instance x 2-3 masks x applied_field / metric_name set or not, each event judged alone; rule-values family = "
+                "one match rule x {prefix, suffix, contains} x case_insensitive x invert x value lists of 1-3 values of different "
+                "lengths; anchors families = expressions with leading ^ / \\A, trailing $, top-level alternation of "
                 "an anchored and a free branch, (?m)^ over multi-line values; stress family = 4 instances started on ONE "
                 "shared config (do_if-guarded masks, match rules, own lists) run concurrently over events with alternating "
                 "do_if outcomes, and masks with match_rules (prefix / suffix / contains, case_insensitive on/off, invert, and/or, "
